@@ -25,7 +25,7 @@ RULE = ("LASFiles from seeded specs x construction {scratch, read back from text
         "(version, wrap, fmt, column_fmt, len_numeric_field, spacers, data_width, header style; STRT/STOP/STEP left to "
         "lasio) x 2..4 consecutive writes; plus a deterministic grid over (construction, edit, version, wrap) and the "
         "readable corpus. distinct = distinct (construction, edit, index shape, option classes, empty-value layout); "
-        "non-trivial = case whose LASFile has >= 2 curves and >= 1 extra header item Added later: objects constructed by read with each mnemonic_case, digit-named curves, padded in-memory text values, stale duplicate suffixes x mnemonics header, an irregular index that ends where it starts.")
+        "non-trivial = case whose LASFile has >= 2 curves and >= 1 extra header item Added later: objects constructed by read with each mnemonic_case, digit-named curves, padded in-memory text values, stale duplicate suffixes x mnemonics header, an irregular index that ends where it starts. Round 8: tables held in float32 throughout.")
 ASSUMPTIONS = [
     "STRT/STOP/STEP are compared with the index tokens of the emitted data section within half a unit of the last digit of each side (two roundings for STEP)",
     "the truthfulness clause is only checked under the statement's trigger (index created or changed in memory, or file STOP disagreeing with the data)",
